@@ -185,7 +185,8 @@ impl<'e> Worker<'e> {
         for (k, v) in &out.probes.0 {
             *self.res.probes.entry(k.to_string()).or_insert(0) += v;
         }
-        self.res.digest = self.res.digest.wrapping_mul(0x100000001b3).wrapping_add(out.digest);
+        // commutative combination: independent of how runs are partitioned among workers
+        self.res.digest = self.res.digest.wrapping_add(crate::prng::splitmix64(out.digest));
         if out.fault_unfired {
             self.res.fault_unfired += 1;
         }
@@ -613,7 +614,7 @@ pub fn check_main(prop: &str, tier: &str) -> i32 {
                 total.other_property_violations += r.other_property_violations;
                 total.leaks_in_fault_runs += r.leaks_in_fault_runs;
                 total.fault_unfired += r.fault_unfired;
-                total.digest ^= r.digest;
+                total.digest = total.digest.wrapping_add(r.digest);
                 for s in r.samples {
                     if total.samples.len() < 3 {
                         total.samples.push(s);
@@ -930,4 +931,87 @@ fn rule_for(prop: &str) -> String {
         _ => "all steps",
     };
     format!("{}{}", common, specific)
+}
+
+
+// ------------------------------------------------------------------------------------------
+// determinism self-test
+
+fn batch_digest(prop: &str, verif_seed: u64, units: u64, nworkers: u64, tag: &str) -> Result<(u64, u64), String> {
+    let tmp = tmp_dir();
+    let per = (units + nworkers - 1) / nworkers;
+    let mut children = Vec::new();
+    for w in 0..nworkers {
+        let from = w * per;
+        let to = ((w + 1) * per).min(units);
+        if from >= to {
+            continue;
+        }
+        let prefix = tmp.join(format!("det-{}-{}-{}-{}", std::process::id(), prop, tag, w));
+        let p = std::process::Command::new(self_exe())
+            .args(["worker", prop, "quick", &verif_seed.to_string(), &from.to_string(), &to.to_string(), prefix.to_str().unwrap(), "--no-min"])
+            .stdout(std::process::Stdio::null())
+            .spawn()
+            .map_err(|e| e.to_string())?;
+        children.push((p, prefix));
+    }
+    let mut digest = 0u64;
+    let mut evals = 0u64;
+    for (mut p, prefix) in children {
+        let st = p.wait().map_err(|e| e.to_string())?;
+        let r: Option<WorkerResult> = std::fs::read_to_string(prefix.with_extension("result")).ok().and_then(|s| serde_json::from_str(&s).ok());
+        for ext in ["result", "digests", "states", "status"] {
+            let _ = std::fs::remove_file(prefix.with_extension(ext));
+        }
+        match (st.success(), r) {
+            (true, Some(r)) => {
+                digest = digest.wrapping_add(r.digest);
+                evals += r.evaluations;
+            }
+            _ => return Err(format!("worker failed for {}", prop)),
+        }
+    }
+    Ok((digest, evals))
+}
+
+/// Runs the same seeds in different processes at worker counts 1, 5 and 16 (twice each) and
+/// compares the digests of everything observable (ops, outcomes, address-free observations).
+pub fn selftest_determinism(args: &[String]) -> i32 {
+    let units: u64 = args.first().and_then(|s| s.parse().ok()).unwrap_or(2000);
+    let mut bad = 0;
+    let mut total_evals = 0u64;
+    for prop in ["C01", "C04", "C05", "C06", "C12", "C13", "C14", "C16", "C17", "C20"] {
+        let u = match prop {
+            "C16" => units / 4,
+            "C17" => units / 16,
+            _ => units,
+        }
+        .max(16);
+        let mut seen: Vec<(String, u64, u64)> = Vec::new();
+        for (i, w) in [1u64, 5, 16, 16, 5, 1].iter().enumerate() {
+            match batch_digest(prop, 7, u, *w, &format!("{}", i)) {
+                Ok((d, e)) => seen.push((format!("{} workers (pass {})", w, i), d, e)),
+                Err(e) => {
+                    eprintln!("harness error: {}", e);
+                    return 2;
+                }
+            }
+        }
+        let first = seen[0].1;
+        let same = seen.iter().all(|x| x.1 == first && x.2 == seen[0].2);
+        total_evals += seen[0].2;
+        println!("{}: {} units, {} evaluations, digest {:016x} over 6 batches in separate processes (1/5/16/16/5/1 workers): {}", prop, u, seen[0].2, first, if same { "identical" } else { "DIFFERENT" });
+        if !same {
+            bad += 1;
+            for x in &seen {
+                println!("   {} -> {:016x} ({} evaluations)", x.0, x.1, x.2);
+            }
+        }
+    }
+    println!("determinism self-test: {} evaluations per batch, {} properties diverged", total_evals, bad);
+    if bad == 0 {
+        0
+    } else {
+        1
+    }
 }
